@@ -27,4 +27,4 @@ def run(res, a):
                         "composition (Properties/C01compose.v): page + span + address arithmetic + the OS layer's contract on segment addresses are composed into one "
                         "refinement theorem over Model/Compose.v; not part of it: block contents (no byte store in the composite model; disjointness + the per-layer "
                         "'the allocator writes only dead blocks' + the byte-pattern oracle), the page queues (which page is used is a choice argument), commit failure "
-                        "(C07), progress of malloc (Proofs/ComposeOpen.v)"]
+                        "(C07)"]
